@@ -547,7 +547,7 @@ def slice_dirs(ctx, sink, filesets):
     many_src = os.path.join(d, "many-src")
     os.makedirs(many_src, exist_ok=True)
     rnd = random.Random(f"c20-{ctx.seed}-many")
-    for mi, count in enumerate([1010, 1026] + ([2049, 5013] if ctx.thorough else [])):
+    for mi, count in enumerate([1010, 1026, 5003] + ([2049, 5013, 10241] if ctx.thorough else [])):
         files = {}
         for k in range(count):
             nm = f"Many\\d{k % 7}\\f{mi}_{k:05}.txt"
